@@ -10,8 +10,6 @@ import (
 	"path/filepath"
 )
 
-var nodeInfos []bs_domain.BSDataStruct
-
 type BadSmellApp struct {
 }
 
@@ -20,7 +18,7 @@ func NewBadSmellApp() *BadSmellApp {
 }
 
 func (j *BadSmellApp) AnalysisPath(codeDir string) *[]bs_domain.BSDataStruct {
-	nodeInfos = nil
+	var nodeInfos []bs_domain.BSDataStruct
 	files := cocafile.GetJavaFiles(codeDir)
 	for index := range files {
 		nodeInfo := bs_domain.NewJFullClassNode()
